@@ -2,6 +2,7 @@
 From Coq Require Import List ZArith NArith Bool.
 Import ListNotations.
 From GS Require Import Num EventLoop Kernel Sim.
+From GS Require Import NumZ Sim ExampleKit.
 From GS.Proofs Require Import Aux SimP SimP3 TraceSpec TimerSpec.
 
 Section C12.
@@ -55,6 +56,18 @@ Proof.
 Qed.
 
 End C12.
+
+(** Non-vacuity: two nodes, interval 1, duration 3: one telemetry per node per update, at 1, 2, 3, in node
+    order, each carrying that node's own position. *)
+Definition ex12 (n : nat) (ps : unit) (now : Z) (c : cb Z) : unit * list (action Z) := (tt, []).
+Example C12_example :
+  fst (fst (fst (runx (cfgx [HMob; HTimer] 2 [(0, 0, 0)%Z; (1, 1, 1)%Z] 10%Z 0%Z 0%Z 1%Z 5%Z [] []) ex12 (Some 3%Z) None 50))) =
+  [TCb 0 0%Z CbInit; TCb 1 0%Z CbInit;
+   TCb 0 1%Z (CbTelemetry (0, 0, 0)%Z); TCb 1 1%Z (CbTelemetry (1, 1, 1)%Z);
+   TCb 0 2%Z (CbTelemetry (0, 0, 0)%Z); TCb 1 2%Z (CbTelemetry (1, 1, 1)%Z);
+   TCb 0 3%Z (CbTelemetry (0, 0, 0)%Z); TCb 1 3%Z (CbTelemetry (1, 1, 1)%Z);
+   TCb 0 3%Z CbFinish; TCb 1 3%Z CbFinish].
+Proof. vm_compute. reflexivity. Qed.
 
 Print Assumptions C12_update_requests.
 Print Assumptions C12_payload_is_position_after_update.
